@@ -142,7 +142,12 @@ fn qname_pool() -> Vec<String> {
         v.push(format!("www.{o}"));
         v.push(format!("q.{o}"));
         v.push(format!("q.r.{o}"));
+        // a leading asterisk label is an ordinary label for zone selection (RFC 4592 2.1.3)
+        v.push(format!("*.{o}"));
+        v.push(format!("*.q.{o}"));
     }
+    v.push("*.nozone.invalid.".into());
+    v.push("*.xtest.".into());
     v.push("nozone.invalid.".into());
     v.push("xtest.".into());
     v.push("est.".into());
@@ -611,6 +616,16 @@ fn check_exchange(req: &[u8], exp: &fdr::Expected, sent: &Sent, what: &dyn Fn() 
             wl::rcode_name(rcode),
             hex(resp),
             hex(want),
+            what()
+        );
+    }
+    if exp.not_refused {
+        vensure!(
+            rcode != wl::RC_REFUSED,
+            "refused-although-a-configured-zone-encloses-the-name",
+            "REFUSED for {} which lies in the configured zone {}\n{}",
+            exp.qname.as_ref().map(|n| canon::show(n)).unwrap_or_default(),
+            exp.zone.as_ref().map(|n| canon::show(n)).unwrap_or_default(),
             what()
         );
     }
